@@ -240,6 +240,20 @@ def c02b(ctx):
             ok = ok and events == ('ORIGIN_LL',)
         elif asg[a_u[0]]:
             ok = ok and events == ('ORIGIN_UL',)
+    pname = ofs.params[0]
+    if not ok and not any(isinstance(x, ast.Name) and x.id == pname and isinstance(x.ctx, ast.Store) for x in ofs.walk()):
+        # another spelling (alias table, guard clauses): decided by partial evaluation for sample values of the argument
+        ok = True
+        for v, want in ((None, 'ORIGIN_LL'), ('ll', 'ORIGIN_LL'), ('sw', 'ORIGIN_LL'), ('ul', 'ORIGIN_UL'), ('nw', 'ORIGIN_UL'), ('SW', 'ORIGIN_LL'),
+                        ('Nw', 'ORIGIN_UL'), ('xx', None), ('', None)):
+            sp = ctx.repo.specialise(ofs, {pname: v})
+            live = [s_ for s_ in sp.node.body if not (isinstance(s_, ast.Expr) and isinstance(s_.value, ast.Constant))]
+            last = live[-1] if live else None
+            if want is None:
+                ok = ok and isinstance(last, ast.Raise)
+            else:
+                ok = ok and isinstance(last, ast.Return) and last.value is not None and unparse(Canon(sp).expr(last.value)) == want and \
+                    not any(isinstance(x, ast.Raise) for x in live)
     ctx.check(ok, 'origin_from_string:table', 'None/ll/sw -> lower left, ul/nw -> upper left', ofs)
 
 
